@@ -67,7 +67,11 @@ def main():
                 result["confirmed"]["suite_failures"] = fails[:8]
         finally:
             sh(f"git -C /repo worktree remove --force {wt}")
-    # run the checks against the change
+    # run the checks against the change (holding the lock that everything running against /repo takes)
+    import fcntl
+    lock = open("/tmp/verif-repo.lock", "w")
+    fcntl.flock(lock, fcntl.LOCK_EX)
+    ENV["VERIF_REPO_LOCKED"] = "1"
     code, o = sh("git -C /repo status --porcelain")
     assert o.strip() == "", "/repo has uncommitted changes:\n" + o
     code, o = sh(f"git -C /repo apply {os.path.abspath(patch)}")
@@ -94,6 +98,7 @@ def main():
         sh("git -C /repo clean -fdq -- . ':!verif_*'")
     code, o = sh("git -C /repo status --porcelain")
     assert o.strip() == "", "/repo not clean after undo:\n" + o
+    fcntl.flock(lock, fcntl.LOCK_UN)
     dst = os.path.join(ROOT, "seeded", sid)
     os.makedirs(dst, exist_ok=True)
     if "--skip-confirm" in sys.argv and os.path.exists(os.path.join(dst, "meta.json")):
